@@ -4,7 +4,8 @@
    and the per-thread frame / func / resource / string tables (Model/FrameTables.v).
    Marker payloads (Model/MarkerTable.v): the flat field-value vectors and their consumption at serialization time.
    Categories and subcategories (Model/Categories.v): handles by handle and by value, the frame table's category / subcategory columns.
-   Not modelled (their theorems are absent, the run-time checker covers their tables): JS frames and frame flags,
+   Frame flags (IS_JS, IS_RELEVANT_FOR_JS) are part of the frame and func keys.
+   Not modelled (their theorems are absent, the run-time checker covers their tables):
    allocation samples, counter sample columns (C04 covers their ordering); see DESIGN.md 9. *)
 From SV Require Import Model.ProfileTables Proofs.ProfileTablesProofs Model.FrameTables Proofs.FrameTablesProofs Proofs.ThreadOrderProofs Model.MarkerTable Proofs.MarkerTableProofs
   Model.Categories Proofs.CategoriesProofs.
@@ -47,11 +48,11 @@ Proof. exact wf_prefix_walk_terminates. Qed.
    frame -> func and native symbol, func -> name string, file-name string and resource, resource -> library and name string,
    native symbol -> library and name string *)
 Theorem C03_table_indices :
-  forall (nlibs : nat) (rs : list (freq * (nat * nat))), Forall (fun r => req_ok nlibs (fst r)) rs -> tt_wf nlibs (run_reqs rs).
+  forall (nlibs : nat) (rs : list (freq * (nat * nat * N))), Forall (fun r => req_ok nlibs (fst r)) rs -> tt_wf nlibs (run_reqs rs).
 Proof. exact run_reqs_wf. Qed.
 (* ... and the (category, subcategory) of every frame row is a subcategory handle some call was given *)
 Theorem C03_frame_subcategories :
-  forall (rs : list (freq * (nat * nat))) k, In k (tt_frames (run_reqs rs)) -> In (fk_sub k) (map snd rs).
+  forall (rs : list (freq * (nat * nat * N))) k, In k (tt_frames (run_reqs rs)) -> In (fk_sub k) (map (fun r => fst (snd r)) rs).
 Proof. exact run_reqs_subs. Qed.
 
 (* categories and subcategories: for ANY sequence of handle_for_category / handle_for_subcategory calls and Category / Subcategory
@@ -152,7 +153,7 @@ Example ex_c03 :
 Proof. vm_compute. repeat split. Qed.
 
 Example ex_c03_tables :
-  let t := run_reqs (map (fun r => (r, (0, 0)))
+  let t := run_reqs (map (fun r => (r, ((0, 0), 0%N)))
                     [FLabel 7; FNative 0 256 8 9; FString 5; FNativeSym 0 516 512 10 9; FNativeSym 0 520 512 10 9; FLabel 7;
                      (* a native symbol handle, then the same address again as an inlined frame (depth 1) with its own name, file and line;
                         a symbolicated frame whose address is in no library; a label frame with a source location *)
@@ -174,11 +175,12 @@ Example ex_c03_markers :
     Some ([7; 3; 4; 5; 6], [42; 9], Some [[7]; [3; 4; 42]; []; [5; 6; 9]])%N.
 Proof. split; [cbn; repeat split; eexists; split; reflexivity|vm_compute; reflexivity]. Qed.
 
-(* categories: a category looked up again by value keeps its subcategories; the same label under two subcategories is two frames *)
+(* categories: a category looked up again by value keeps its subcategories; the same label under two subcategories, or with other frame flags, is another frame *)
 Example ex_c03_categories :
   let ops := [CCat 5 2; CSub 0 6; CCat 5 2; CSubVal 5 2 7; CSubVal 8 2 6; CSub 0 6; CCat 5 3]%N in
   cops_ok 0 ops /\
   option_map (fun st => (map (fun x => (c_name x, c_color x, c_subs x)) (fst st), snd st)) (crun 1%N (cats_init 1 0, [])%N ops) =
     Some ([(1, 0, [1]); (5, 2, [1; 6; 7]); (8, 2, [1; 6]); (5, 3, [1])]%N, [(1, 0); (1, 1); (1, 0); (1, 2); (2, 1); (1, 1); (3, 0)]) /\
-  map fk_sub (tt_frames (run_reqs [(FLabel 7, (1, 1)); (FLabel 7, (1, 2)); (FLabel 7, (1, 1))])) = [(1, 1); (1, 2)].
+  map (fun k => (fk_sub k, fk_flags k)) (tt_frames (run_reqs [(FLabel 7, ((1, 1), 0%N)); (FLabel 7, ((1, 2), 0%N)); (FLabel 7, ((1, 1), 0%N)); (FLabel 7, ((1, 1), 1%N))])) =
+    [((1, 1), 0%N); ((1, 2), 0%N); ((1, 1), 1%N)].
 Proof. split; [cbn; repeat split; lia|vm_compute; split; reflexivity]. Qed.
